@@ -1660,7 +1660,6 @@ def _precedence(node: ast.AST) -> int:
     return 16
 
 
-@functools.lru_cache(maxsize=10_000)
 def _operand_wildcards(template: str) -> Mapping[str, int]:
     """The wildcards that a template uses as an operand, as in "not {{x}}", "{{x}} + 1" or
     "{{x}}.real", and the precedence of the operator that binds them the tightest."""
